@@ -23,6 +23,16 @@ import (
 
 const Root = "/verif"
 
+// OutRoot is where evidence and replay files are written: Root, unless
+// VERIF_OUT_DIR names another directory (used by seeded/try_seed.sh so that a
+// run against a seeded tree does not overwrite the evidence of the real one).
+func OutRoot() string {
+	if d := os.Getenv("VERIF_OUT_DIR"); d != "" {
+		return d
+	}
+	return Root
+}
+
 // Fail describes one violated case.
 type Fail struct {
 	// Key identifies the witness for the known-findings file. It must be
@@ -372,7 +382,7 @@ func (c *Ctx) Finish(exhaustive bool) {
 	}
 	wall := time.Since(c.start).Seconds()
 	// replay files
-	dir := filepath.Join(Root, "replays", c.ID)
+	dir := filepath.Join(OutRoot(), "replays", c.ID)
 	sort.SliceStable(c.violations, func(i, j int) bool {
 		return len(c.violations[i].Case) < len(c.violations[j].Case)
 	})
@@ -436,9 +446,9 @@ func (c *Ctx) Finish(exhaustive bool) {
 	if c.Assumptions == nil {
 		ev["assumptions"] = []string{}
 	}
-	os.MkdirAll(filepath.Join(Root, "evidence"), 0o755)
+	os.MkdirAll(filepath.Join(OutRoot(), "evidence"), 0o755)
 	data, _ := json.MarshalIndent(ev, "", " ")
-	if err := os.WriteFile(filepath.Join(Root, "evidence", c.ID+".json"), append(data, '\n'), 0o644); err != nil {
+	if err := os.WriteFile(filepath.Join(OutRoot(), "evidence", c.ID+".json"), append(data, '\n'), 0o644); err != nil {
 		fmt.Fprintln(os.Stderr, "cannot write evidence:", err)
 		os.Exit(2)
 	}
